@@ -411,7 +411,7 @@ class Executor:
             # dropping the closure environment drops the captured JobBroker: its Drop impl is a
             # separate critical section, scheduled by the harness
             return "return_drop_broker"
-        if v[0] in ("int", "bool", "opaque", "uninit", "ref", "struct", "range"):
+        if v[0] in ("int", "bool", "opaque", "uninit", "ref", "struct", "range", "dur", "res"):
             return None
         raise Unsupported(f"drop of {v[0]} in {body.name}: {t.text}")
 
@@ -611,8 +611,45 @@ class Executor:
             a = st.heap[deref(args[0])][1]
             b = st.heap[deref(args[1])][1]
             return B(a < b)
+        NS = 1000000000
         if f.endswith("Duration::from_secs"):
-            return ("opaque", "duration")
+            return ("dur", args[0][1] * NS) if args[0][0] == "int" else ("opaque", "duration")
+        if f.endswith("Duration::from_millis"):
+            return ("dur", args[0][1] * 1000000)
+        if f.endswith("Duration::as_secs"):
+            return I(st.heap[deref(args[0])][1] / NS)
+        if f.endswith("Duration::as_millis"):
+            return I(st.heap[deref(args[0])][1] / 1000000)
+        if f.endswith("Duration::is_zero"):
+            return B(st.heap[deref(args[0])][1] == 0)
+        if re.fullmatch(r"<Duration as Ord>::min|std::cmp::min::<Duration>|core::cmp::Ord::min", f) and args[0][0] == "dur":
+            a, b = args[0][1], args[1][1]
+            return ("dur", z3.If(a <= b, a, b))
+        if re.fullmatch(r"<Duration as Ord>::max|std::cmp::max::<Duration>", f) and args[0][0] == "dur":
+            a, b = args[0][1], args[1][1]
+            return ("dur", z3.If(a >= b, a, b))
+        mm = re.fullmatch(r"<Duration as PartialOrd>::(lt|le|gt|ge)|<Duration as PartialEq>::(eq|ne)", f)
+        if mm:
+            a, b = st.heap[deref(args[0])][1], st.heap[deref(args[1])][1]
+            op = mm.group(1) or mm.group(2)
+            return B({"lt": a < b, "le": a <= b, "gt": a > b, "ge": a >= b, "eq": a == b, "ne": a != b}[op])
+        if f.endswith("SystemTime::duration_since"):
+            a = args[0][1] if args[0][0] == "int" else st.heap[deref(args[0])][1]
+            b = args[1][1] if args[1][0] == "int" else st.heap[deref(args[1])][1]
+            return ("res", a >= b, st.alloc(("dur", a - b)), st.alloc(("opaque", "SystemTimeError")))
+        if re.search(r"Result::<Duration, .*>::unwrap_or_default$", f):
+            r = args[0]
+            return ("dur", z3.If(r[1], st.heap[r[2]][1], 0))
+        if re.search(r"Result::<Duration, .*>::unwrap_or$", f):
+            r = args[0]
+            return ("dur", z3.If(r[1], st.heap[r[2]][1], args[1][1]))
+        mm = re.search(r"<SystemTime as PartialOrd>::(le|gt|ge)$", f)
+        if mm:
+            a = st.heap[deref(args[0])][1]
+            b = st.heap[deref(args[1])][1]
+            return B({"le": a <= b, "gt": a > b, "ge": a >= b}[mm.group(1)])
+        if re.search(r"<SystemTime as Add<Duration>>::add$|SystemTime::checked_add$", f):
+            raise Unsupported("SystemTime addition in the timeout thread")
         # construction (only needed to read the initial market out of `new`)
         if re.search(r"Arc::<.*>::new$", f):
             return ("arc", st.alloc(args[0]))
